@@ -98,3 +98,111 @@ package rueidisprob
 //@   safety C35
 //@   assert [C35 exists-delegates-its-key] at ExistsMulti: arg0 == c && len(arg2) == 1 && arg2[0] == key
 //@   ensures [C35 exists-returns-the-first-answer where-defined] (second(returned(ExistsMulti)) == nil ==> (result1 == nil && result0 == first(returned(ExistsMulti))[0])) && (second(returned(ExistsMulti)) != nil ==> (result1 == second(returned(ExistsMulti)) && !result0))
+
+// ---------------------------------------------------------------------------------------------
+// C36 — the Go side of the counting filter: every accepted configuration has k >= 1 counters per item; Add, Remove,
+// Exists and ItemMinCount address the same k counters of an item (the positions of C35); Remove hands the script the
+// positions grouped per item followed by k (the script's rollback works per group of k); Exists reports an item present
+// exactly when none of ITS OWN k counters is zero or missing, ItemMinCount reports exactly the minimum of ITS OWN k
+// counters — one answer per item, in order. The Lua scripts and HMGET (one reply element per field, in order) are assumed.
+
+// hcount(m): the counter value carried by one HMGET reply element (a missing field is a null reply and counts as 0)
+// (hcount is defined next to the RedisMessage contracts of the core module: it reads unexported fields)
+// the decoders close a group when (i+1) % k == 0: with i+1 = q*k + d and 1 <= d <= k that is exactly d == k.
+// (cell(q, d) only serves as the trigger that names d; the loop invariants mention it)
+//@ lemma [C36 block-boundary use] forall q int, k int, d int :: {mulk(q, k), cell(q, d)} (k >= 1 && 1 <= d && d <= k) ==> (((mulk(q, k) + d) % k == 0) <==> (d == k))
+
+// a counting filter, once constructed, has at least one counter per item and a non-empty table (established by
+// NewCountingBloomFilter, never written afterwards: checked wherever a countingBloomFilter is stored)
+//@ typeinv countingBloomFilter self.hashIterations >= 1 && self.size >= 1
+// the configuration of a filter is fixed when it is built
+//@ immutable [C36] countingBloomFilter hashIterations size name counter hashIterationString addMultiKeys removeMultiKeys addMultiScript removeMultiScript
+
+//@ func NewCountingBloomFilter
+//@   modifies *
+//@   let P = ptrof(result0, *countingBloomFilter)
+//@   ensures [C36 accepted-configuration-is-usable] result1 == nil ==> (typeis(result0, *countingBloomFilter) && P != nil && P.hashIterations >= 1 && P.size >= 1 && P.hashIterationString == strconv.FormatUint(uint64(P.hashIterations), 10))
+//@   ensures [C36 add-and-remove-address-the-same-counters] result1 == nil ==> (len(P.addMultiKeys) == 2 && P.addMultiKeys[0] == P.name && P.addMultiKeys[1] == P.counter && len(P.removeMultiKeys) == 2 && P.removeMultiKeys[0] == P.name && P.removeMultiKeys[1] == P.counter && P.addMultiScript != nil && P.removeMultiScript != nil)
+//@   ensures [C36 add-and-remove-scripts-are-never-resent] result1 == nil ==> (!retryableScript(P.addMultiScript) && !retryableScript(P.removeMultiScript))
+
+//@ func countingBloomFilter.indexes
+//@   requires f.hashIterations >= 1 && f.hashIterations <= 4294967296 && f.size >= 1 && buf != nil
+//@   requires len(keys) * f.hashIterations <= 1099511627776
+//@   safety C36
+//@   modifies *buf, (*buf)[*]
+//@   ensures [C36 one-block-of-positions-per-key] len(result) == mulk(len(keys), f.hashIterations)
+//@   ensures [C36 positions-depend-on-the-key-alone] forall a int, b int :: {cell(a, b)} (cell(a, b) && 0 <= a && a < len(keys) && 0 <= b && b < f.hashIterations) ==> result[mulk(a, f.hashIterations) + b] == want(keys[a], b, uint64(f.size))
+//@   loop 0: invariant [C36] rangeindex >= -1 && rangeindex < len(keys) && len(allIndexes) == mulk(rangeindex + 1, f.hashIterations) && fresh(allIndexes)
+//@   loop 0: invariant [C36] forall a int, b int :: {cell(a, b)} (cell(a, b) && 0 <= a && a <= rangeindex && 0 <= b && b < f.hashIterations) ==> allIndexes[mulk(a, f.hashIterations) + b] == want(keys[a], b, uint64(f.size))
+//@   loop 1: invariant [C36] 0 <= i && i <= f.hashIterations && len(allIndexes) == mulk(rangeindex + 1, f.hashIterations) + i && rangeindex + 1 < len(keys) && rangeindex >= -1 && fresh(allIndexes) && key == keys[rangeindex + 1]
+//@   loop 1: invariant [C36] forall a int, b int :: {cell(a, b)} (cell(a, b) && ((0 <= a && a <= rangeindex && 0 <= b && b < f.hashIterations) || (a == rangeindex + 1 && 0 <= b && b < i))) ==> allIndexes[mulk(a, f.hashIterations) + b] == want(keys[a], b, uint64(f.size))
+
+//@ func countingBloomFilter.AddMulti
+//@   requires f.hashIterations >= 1 && f.hashIterations <= 4294967296 && f.size >= 1
+//@   requires len(f.addMultiKeys) == 2 && f.addMultiKeys[0] == f.name && f.addMultiKeys[1] == f.counter
+//@   requires len(keys) * f.hashIterations <= 1099511627776
+//@   modifies *
+//@   assert [C36 add-increments-the-counters-of-its-keys] at Exec: arg0 == f.addMultiScript && len(arg3) == 2 && arg3[0] == f.name && arg3[1] == f.counter && len(arg4) == 1 + mulk(len(keys), f.hashIterations) && arg4[0] == strconv.Itoa(len(keys)) && (forall a int, b int :: {cell(a, b)} (cell(a, b) && 0 <= a && a < len(keys) && 0 <= b && b < f.hashIterations) ==> arg4[1 + mulk(a, f.hashIterations) + b] == want(keys[a], b, uint64(f.size)))
+//@   ensures [C36 add-reports-the-servers-verdict where-defined] (result == nil) <==> !failed(resp)
+
+//@ func countingBloomFilter.RemoveMulti
+//@   requires f.hashIterations >= 1 && f.hashIterations <= 4294967296 && f.size >= 1
+//@   requires len(f.removeMultiKeys) == 2 && f.removeMultiKeys[0] == f.name && f.removeMultiKeys[1] == f.counter
+//@   requires len(keys) * f.hashIterations <= 1099511627776
+//@   modifies *
+//@   assert [C36 remove-names-the-counters-of-its-keys-grouped-per-item] at Exec: arg0 == f.removeMultiScript && len(arg3) == 2 && arg3[0] == f.name && arg3[1] == f.counter && len(arg4) == mulk(len(keys), f.hashIterations) + 1 && arg4[mulk(len(keys), f.hashIterations)] == f.hashIterationString && (forall a int, b int :: {cell(a, b)} (cell(a, b) && 0 <= a && a < len(keys) && 0 <= b && b < f.hashIterations) ==> arg4[mulk(a, f.hashIterations) + b] == want(keys[a], b, uint64(f.size)))
+//@   ensures [C36 remove-reports-the-servers-verdict where-defined] (result == nil) <==> !failed(resp)
+
+//@ func countingBloomFilter.ItemMinCountMulti
+//@   option opaque-pkgs=github.com/redis/rueidis/internal/cmds
+//@   requires f.hashIterations >= 1 && f.hashIterations <= 4294967296 && f.size >= 1
+//@   requires len(keys) * f.hashIterations <= 1099511627776
+//@   modifies *
+//@   safety C36
+//@   let K = int(f.hashIterations)
+//@   let Q = len(counts)
+//@   let R = rangeindex + 1 - mulk(len(counts), K)
+//@   ensures [C36 one-count-per-complete-group where-defined] (result1 == nil && len(keys) > 0) ==> (mulk(len(result0), K) <= len(messages) && len(messages) < mulk(len(result0), K) + K)
+//@   loop 0: invariant [C36] rangeindex >= -1 && rangeindex < len(messages) && fresh(counts) && Q >= 0 && 0 <= R && R < K && cell(Q, R + 1) && cell(Q, R)
+
+//@ func countingBloomFilter.ExistsMulti
+//@   option opaque-pkgs=github.com/redis/rueidis/internal/cmds
+//@   requires f.hashIterations >= 1 && f.hashIterations <= 4294967296 && f.size >= 1
+//@   requires len(keys) * f.hashIterations <= 1099511627776
+//@   modifies *
+//@   safety C36
+//@   let K = int(f.hashIterations)
+//@   let Q = len(result)
+//@   let R = rangeindex + 1 - mulk(len(result), K)
+//@   ensures [C36 one-answer-per-complete-group where-defined] (result1 == nil && len(keys) > 0) ==> (mulk(len(result0), K) <= len(messages) && len(messages) < mulk(len(result0), K) + K)
+//@   loop 0: invariant [C36] rangeindex >= -1 && rangeindex < len(messages) && fresh(result) && Q >= 0 && 0 <= R && R < K && cell(Q, R + 1) && cell(Q, R)
+
+// NOT PROVED (solvers time out on the preservation steps; kept here as the intended functional contract, not claimed):
+// per group of K reply elements, ItemMinCountMulti returns a value that is <= every counter of the group and equal to one
+// of them; ExistsMulti returns true iff none of the group's counters is zero or missing.
+//     ensures [C36 never-below-any-of-the-items-own-counters where-defined] (result1 == nil && len(keys) > 0) ==> (forall j int, b int :: {cell(j, b)} (cell(j, b) && 0 <= j && j < len(result0) && 0 <= b && b < K) ==> result0[j] <= hcount(messages[mulk(j, K) + b]))
+//     ensures [C36 equal-to-one-of-the-items-own-counters where-defined] (result1 == nil && len(keys) > 0) ==> (forall j int :: {mulk(j, K)} (0 <= j && j < len(result0)) ==> (exists b int :: cell(j, b) && 0 <= b && b < K && result0[j] == hcount(messages[mulk(j, K) + b])))
+//     loop 0: invariant [C36] forall b int :: {cell(Q, b)} (cell(Q, b) && 0 <= b && b < R) ==> minCount <= hcount(messages[mulk(Q, K) + b])
+//     loop 0: invariant [C36] (R == 0 ==> minCount == 18446744073709551615) && (R > 0 ==> (exists b int :: cell(Q, b) && 0 <= b && b < R && minCount == hcount(messages[mulk(Q, K) + b])))
+//     loop 0: invariant [C36] forall j int, b int :: {cell(j, b)} (cell(j, b) && 0 <= j && j < Q && 0 <= b && b < K) ==> counts[j] <= hcount(messages[mulk(j, K) + b])
+//     loop 0: invariant [C36] forall j int :: {mulk(j, K)} (0 <= j && j < Q) ==> (exists b int :: cell(j, b) && 0 <= b && b < K && counts[j] == hcount(messages[mulk(j, K) + b]))
+//     ensures [C36 present-only-if-none-of-the-items-own-counters-is-zero where-defined] (result1 == nil && len(keys) > 0) ==> (forall j int, b int :: {cell(j, b)} (cell(j, b) && 0 <= j && j < len(result0) && 0 <= b && b < K && result0[j]) ==> hcount(messages[mulk(j, K) + b]) != 0)
+//     ensures [C36 absent-only-if-one-of-the-items-own-counters-is-zero where-defined] (result1 == nil && len(keys) > 0) ==> (forall j int :: {mulk(j, K)} (0 <= j && j < len(result0) && !result0[j]) ==> (exists b int :: cell(j, b) && 0 <= b && b < K && hcount(messages[mulk(j, K) + b]) == 0))
+//     loop 0: invariant [C36] isExist ==> (forall b int :: {cell(Q, b)} (cell(Q, b) && 0 <= b && b < R) ==> hcount(messages[mulk(Q, K) + b]) != 0)
+//     loop 0: invariant [C36] !isExist ==> (exists b int :: cell(Q, b) && 0 <= b && b < R && hcount(messages[mulk(Q, K) + b]) == 0)
+//     loop 0: invariant [C36] forall j int, b int :: {cell(j, b)} (cell(j, b) && 0 <= j && j < Q && 0 <= b && b < K && result[j]) ==> hcount(messages[mulk(j, K) + b]) != 0
+//     loop 0: invariant [C36] forall j int :: {mulk(j, K)} (0 <= j && j < Q && !result[j]) ==> (exists b int :: cell(j, b) && 0 <= b && b < K && hcount(messages[mulk(j, K) + b]) == 0)
+
+//@ func countingBloomFilter.Add
+//@   requires f.hashIterations >= 1 && f.hashIterations <= 4294967296 && f.size >= 1
+//@   requires len(f.addMultiKeys) == 2 && f.addMultiKeys[0] == f.name && f.addMultiKeys[1] == f.counter
+//@   modifies *
+//@   assert [C36 add-delegates-its-key] at AddMulti: arg0 == f && len(arg2) == 1 && arg2[0] == key
+//@   ensures [C36 add-returns-the-batch-verdict where-defined] result == returned(AddMulti)
+
+//@ func countingBloomFilter.Remove
+//@   requires f.hashIterations >= 1 && f.hashIterations <= 4294967296 && f.size >= 1
+//@   requires len(f.removeMultiKeys) == 2 && f.removeMultiKeys[0] == f.name && f.removeMultiKeys[1] == f.counter
+//@   modifies *
+//@   assert [C36 remove-delegates-its-key] at RemoveMulti: arg0 == f && len(arg2) == 1 && arg2[0] == key
+//@   ensures [C36 remove-returns-the-batch-verdict where-defined] result == returned(RemoveMulti)
